@@ -38,7 +38,16 @@ analysis error; WBS.tasks; two sites in WBS.__remove).  A function end reachable
 
 Not decided: what user supplied predicates do (assumed pure); attribute names that themselves end in a filter suffix
 (`is_not` + `_in_`); that `_ChildrenList.remove` detaches the whole subtree (C11 territory); regular-expression semantics;
-table-driven re-implementations of `search` (suffix -> operator dict) end as UNDECIDED, not as a pass.
+loop-over-table re-implementations of `search` (`for suffix, op in TABLE.items()`) end as UNDECIDED, not as a pass.
+
+Table-driven dispatch IS decided: a dict literal `NAME = {'<suffix>': operator.xx | lambda a, b: ..}` (module level, class level,
+in `__call__` or in `search`; bound once) used as `k[-n:] in NAME` / `k.endswith(tuple(NAME))` / `NAME[k[-n:]]` / `NAME.get(..)`
+is partially evaluated per suffix (`k[-n:]` is a constant for keys `name + suffix`), the looked-up operator call is turned into
+the comparison it performs, and the result goes through the same strip / truth-table / None-guard checks as an if/elif chain.
+The table is assumed not to be mutated at run time.
+
+A query result that is the receiver itself, its `_list`, or a new facade around the un-copied `_list` is refuted under
+`result` (the result must be a new list: it is iterated by remove_all while `remove` rewrites the live list).
 
 Engine limitations worked around here: sa.flow.Expander is not path sensitive (a local assigned in several branches is
 opaque) and inlines only single-return helpers, so this module carries its own small path-enumerating symbolic executor
@@ -452,9 +461,6 @@ class _Specialiser(ast.NodeTransformer):
                 strs = self._strs(r)
                 if strs is not None:
                     return ast.Constant(value=(l.value in strs) == isinstance(op, ast.In))
-        if isinstance(r, ast.Constant) and isinstance(r.value, str) and isinstance(l, ast.Constant) is False and \
-                isinstance(op, (ast.Eq, ast.NotEq)) and False:
-            return node
         return node
 
     def visit_Call(self, node):
@@ -691,7 +697,8 @@ def _one_suffix(o, f, V: _SearchVocab, paths: List[_Path], suffix: str, tables: 
     branches = {b for _, _, b in feasible}
     wrong_branch = ''
     if suffix and branches == {None}:
-        wrong_branch = f"no `endswith({suffix!r})` branch exists: such keys are treated as plain attribute names; "
+        wrong_branch = (f"no branch recognises the suffix {label} (neither an `endswith({suffix!r})` test nor an operator-table "
+                        f"entry): such keys are treated as plain attribute names; ")
     elif len(branches) == 1 and (next(iter(branches)) or '') != suffix:
         b = next(iter(branches))
         wrong_branch = (f"keys ending with {label} are handled by the branch for `{b}` (it is tested before the longer suffix "
